@@ -516,7 +516,7 @@ class StdioLayer:
     def build(self): daemon.build()
 
     def _one(self, a):
-        seed, N, faults = a
+        seed, N, faults, prop = a
         sim = daemon.simulate_stdio(seed, N, faults)
         chunks = daemon.lean_side(sim)
         diffs = daemon.compare(sim, chunks)
@@ -530,18 +530,18 @@ class StdioLayer:
         st['final flushes larger than what the descriptor could take at once (write would sleep)'] += sum(1 for co in sim['couts'] for l in co if l.startswith('Y write %d ' % daemon.STDIO_OUT) and l.endswith('BLOCKS'))
         st['bytes delivered to the client: ' + ('< 1 KiB' if len(out) < 1024 else '< 16 KiB' if len(out) < 16384 else '>= 16 KiB')] += 1
         if any(l.startswith('Y write %d ' % daemon.STDIO_IN) for co in sim['couts'] for l in co):
-            V.append(dict(sig='C09 output for the --stdio client was written to its input descriptor', at=len(sim['ops']) - 1))
+            V.append(dict(sig=prop + ' output for the --stdio client was written to its input descriptor', at=len(sim['ops']) - 1))
         if sim['done'] and not sim['died']:
             closes = collections.Counter(l for co in sim['couts'] for l in co if l.startswith('Y close 100'))
             st['ended runs whose two client descriptors were checked to be closed exactly once'] += 1
             if closes.get('Y close %d' % daemon.STDIO_IN, 0) != 1 or closes.get('Y close %d' % daemon.STDIO_OUT, 0) != 1:
-                V.append(dict(sig='C09 the descriptors of the --stdio client are not closed exactly once each when the daemon ends', at=len(sim['ops']) - 1, closes=dict(closes)))
+                V.append(dict(sig=prop + ' the descriptors of the --stdio client are not closed exactly once each when the daemon ends', at=len(sim['ops']) - 1, closes=dict(closes)))
         if sim['died'] and not diffs:
-            V.append(dict(sig='C09 daemon killed in --stdio mode: ' + daemon.death_class(sim['stderr']), at=len(sim['ops']) - 1, detail=sim['stderr'][-800:]))
+            V.append(dict(sig=prop + ' daemon killed in --stdio mode: ' + daemon.death_class(sim['stderr']), at=len(sim['ops']) - 1, detail=sim['stderr'][-800:]))
         if sim['clean'] and sim['done'] and not sim['died']:
             st['clean runs checked for a complete output stream'] += 1
             if not out.endswith(b'101 Goodbye\r\n'):
-                V.append(dict(sig='C09 output queued for the --stdio client was lost when it quit: the stream delivered to its output descriptor does not end with the farewell',
+                V.append(dict(sig=prop + ' output queued for the --stdio client was lost when it quit: the stream delivered to its output descriptor does not end with the farewell',
                               at=len(sim['ops']) - 1, delivered=len(out), tail=out[-60:].decode('latin1')))
         for v in V: v['replay'] = dict(layer=self.name, seed=seed, N=N, faults=faults)
         return dict(diffs=diffs, V=V, st=st, sample=dict(seed=seed, passes=len(sim['ops']), delivered=len(out), ended=sim['done']))
@@ -549,7 +549,7 @@ class StdioLayer:
     def run(self, prop, tier, seed):
         self.build()
         n = dict(quick=48, thorough=600, widen=200).get(tier, 48)
-        jobs = [(seed * 100000 + k, 30 if k % 3 else 60, 0.0 if k % 2 == 0 else 0.15) for k in range(n)]
+        jobs = [(seed * 100000 + k, 30 if k % 3 else 60, 0.0 if k % 2 == 0 else 0.15, prop) for k in range(n)]
         res = pmap(self._one, jobs)
         st = collections.Counter(); diffs = []; V = []
         for r in res: st.update(r['st']); diffs += r['diffs']; V += r['V']
@@ -570,4 +570,5 @@ class StdioLayer:
 
 
 PROPS['C09']['layers'].append(StdioLayer())
+PROPS['C20']['layers'].append(StdioLayer())      # the teardown of --stdio mode: both client descriptors closed exactly once (C20_stdio_teardown)
 PROPS['C09']['refines'] = [(r'^Y write 1\d\d\d ', "what is handed to a client's output descriptor is not what C09 prescribes for this input: the queue is delivered exactly once and in order (C09_stdio_conserve, C09_write_*), and the final flush of a client that quit hands over the whole queue (C09_stdio_quit_flush)")]
